@@ -177,6 +177,9 @@ func (f *frame) step(in ssa.Instruction, st *State) bool {
 		if at, ok := base.Ty.Underlying().(*types.Array); ok {
 			f.safety("bounds", st, fmt.Sprintf("(and (<= 0 %s) (< %s %d))", idx.T, idx.T, at.Len()), x.Pos(), "index out of range")
 			f.setReg(x, fmt.Sprintf("(select %s %s)", base.T, idx.T))
+		} else if sortOf(base.Ty) == "Str" {
+			f.safety("bounds", st, fmt.Sprintf("(and (<= 0 %s) (< %s (slen %s)))", idx.T, idx.T, base.T), x.Pos(), "string index out of range")
+			f.setReg(x, fmt.Sprintf("(sat %s %s)", base.T, idx.T))
 		} else {
 			g.errorf("Index on %s", base.Ty)
 		}
@@ -366,7 +369,9 @@ func (f *frame) step(in ssa.Instruction, st *State) bool {
 	case *ssa.Send:
 		ch := f.val(x.Chan)
 		cl := g.arr(st.heap, "G!chan!closed", "Bool")
-		f.safety("sendclosed", st, fmt.Sprintf("(not (select %s %s))", cl, ch.T), x.Pos(), "send on closed channel")
+		if f.g.W.closesChan(ch.Ty) {
+			f.safety("sendclosed", st, fmt.Sprintf("(not (select %s %s))", cl, ch.T), x.Pos(), "send on closed channel")
+		}
 		f.chanHavocLen(st, ch.T)
 	case *ssa.Select:
 		return f.selectOp(x, st)
@@ -864,10 +869,12 @@ func (f *frame) selectOp(x *ssa.Select, st *State) bool {
 		ch := f.val(s.Chan)
 		chosen := fmt.Sprintf("(= %s %d)", n+"_i", i)
 		if s.Dir == types.SendOnly {
-			can := fmt.Sprintf("(< (select %s %s) (select %s %s))", ln, ch.T, cp, ch.T)
+			can := fmt.Sprintf("(or (< (select %s %s) (select %s %s)) (= (select %s %s) 0))", ln, ch.T, cp, ch.T, cp, ch.T)
 			canAny = append(canAny, can)
 			g.assumeUnder(st.reach, fmt.Sprintf("(=> %s %s)", chosen, can))
-			f.safety("sendclosed", st, fmt.Sprintf("(=> %s (not (select %s %s)))", chosen, cl, ch.T), x.Pos(), "send on closed channel")
+			if f.g.W.closesChan(ch.Ty) {
+				f.safety("sendclosed", st, fmt.Sprintf("(=> %s (not (select %s %s)))", chosen, cl, ch.T), x.Pos(), "send on closed channel")
+			}
 			newLen = fmt.Sprintf("(ite %s (store %s %s (+ (select %s %s) 1)) %s)", chosen, ln, ch.T, ln, ch.T, newLen)
 		} else {
 			can := fmt.Sprintf("(or (select %s %s) (> (select %s %s) 0))", cl, ch.T, ln, ch.T)
@@ -891,5 +898,27 @@ func (f *frame) selectOp(x *ssa.Select, st *State) bool {
 	return true
 }
 
-// recvHook lets channel receives pick up ghost facts (nothing by default).
-func (f *frame) recvHook(x *ssa.UnOp, ch Val, rv Val, st *State) {}
+// recvHook: facts assumed of received values (contract clause `onrecv`, listed as an assumption).
+func (f *frame) recvHook(x *ssa.UnOp, ch Val, rv Val, st *State) {
+	g := f.g
+	var con *Contract
+	if f.top {
+		con = f.con
+	} else {
+		con = g.W.db.Contracts[g.W.relName(f.fn)]
+	}
+	if con == nil || len(con.OnRecv) == 0 || !types.Identical(rv.Ty, tyErr) {
+		return
+	}
+	env := &Env{g: g, vars: map[string]Val{"$v": rv}, heap: st.heap, old: f.entry}
+	f.bindParams(env)
+	for _, cl := range con.OnRecv {
+		t, err := g.trBool(cl.E, env)
+		if err != nil {
+			g.errorf("%s: onrecv %s: %v", con.Name, cl.Src, err)
+			continue
+		}
+		g.assumeUnder(st.reach, t)
+		g.note("assumed of values received from channels in %s: %s", con.Name, cl.Src)
+	}
+}
